@@ -109,11 +109,13 @@ CHECKS = {
    text='Coq theorems: C10_span_exact (the (start,end) stored on every instance by the generated code is the specification\'s: '
         'where the class match began / the position after its last member incl. skipped ignorable text — part of the refinement '
         'theorem), C10_nested (every span inside the consumed range and inside its parent\'s span; lookahead/Backtrack aside), '
-        'C10_finalised_span (conversion to (index,line,column) of start and last consumed offset). Sibling order/disjointness is '
-        'judged on the implementation\'s results by an executable Coq predicate (SpanSpec.spans_ordered, extracted); its theorem '
-        'is not yet proved. Correspondence: nested/repeated/optional/separated classes, memo reuse, templates, ignore '
+        'C10_finalised_span (conversion to (index,line,column) of start and last consumed offset), C10_spans_ordered (Ordered.v: '
+        'the value of every match of a plain expression passes the executable judge SpanSpec.spans_ordered, any nesting, any '
+        'input) with C10_judge_spans_inside / C10_list_elements_in_order / C10_fields_nested_and_ordered saying what the verdict '
+        'means (successive siblings disjoint and in input order, fields inside the instance). The same judge (extracted) runs '
+        'on the implementation\'s results. Correspondence: nested/repeated/optional/separated classes, memo reuse, templates, ignore '
         'declarations, multi-line input, non-zero start offsets; raw and finalised spans of every instance compared.',
-   note=TB + 'conversion exactly once for instances shared through the memo is covered by correspondence only (object identity is not in the model).',
+   note=TB + 'conversion exactly once for instances shared through the memo is covered by correspondence only (object identity is not in the model); the order theorem excludes lookahead, Backtrack, reads of bound values, template calls and operator tables (Within.plain), where the judge still runs on the implementation.',
    technique='Coq refinement + span containment proofs; extracted executable span predicate as judge; differential correspondence',
    ref='DESIGN.md §6 C10'),
  'C09': dict(
@@ -225,12 +227,15 @@ CHECKS = {
    ref='DESIGN.md §6 C19'), 'C20': dict(
    text='Coq theorem on the namespace model (Names.v): user identifiers never start with an underscore, the generator\'s registers and '
         'temporaries (_<base><counter>) always do, hence no user identifier equals a temporary or a register '
-        '(C20_user_names_never_temporaries / _never_reserved; the shipped allocation <base><counter> is refuted by value2). That the '
+        '(C20_user_names_never_temporaries / _never_reserved; the shipped allocation <base><counter> is refuted by value2); at module '
+        'level the three names a rule/class u gives the module (u, _parse_u, _try_u) are never one of the generator\'s own functions '
+        '(_function_<id>, _raise_error<id>, _matcher<id>): C20_rule_names_never_generated_functions (the shipped _parse_function_<id> is '
+        'refuted by a rule named function_5). That the '
         'generator really allocates its names this way is checked on every run by a static scan (ast) of the emitted source; the '
         'behavioural claim — renaming changes nothing else — by renaming runs: six grammar templates x one identifier at a time renamed '
         'into every temporary look-alike, runtime scratch names, builtins, constructor names, plus fresh identifiers, compared with '
         'the plain grammar on every input and with the Coq model.',
-   note=TB + 'partial: the theorem covers function-level names only. Known findings (each listed by identifier): locals named len/slice, rules named like builtins the runtime calls, templates named like expression constructors. The renaming-equivariance theorem of the expression model is not proved.',
+   note=TB + 'partial: the theorems cover function-level names and the generator's numbered module-level functions; the static scan checks on every run that no module-level name the generator defines has the shape X/_parse_X/_try_X. Known findings (each listed by identifier): locals named len/slice, rules named like builtins the runtime calls, templates named like expression constructors. The renaming-equivariance theorem of the expression model is not proved.',
    technique='Coq hygiene theorem on a namespace model + static scan of emitted code + differential renaming runs',
    ref='DESIGN.md §6 C20'),
 }
